@@ -30,7 +30,8 @@ AtomCls == {"int", "bool", "str", "float", "complex", "NoneType", "A", "B"}
 SeqCls  == {"list", "tuple", "deque", "USeq"}          \* indexable, random item sampled
 CollCls == {"set", "frozenset", "UColl", "dict_keys", "dict_values"}   \* re-iterable, first item
 MapCls  == {"dict", "defaultdict", "OrderedDict", "Counter", "UMap"}
-IterCls == {"UIter", "gen"}                           \* iterable but not a collection / one-shot
+IterCls == {"UIter", "gen", "USizedIter"}             \* iterable but not a collection / one-shot
+                                                      \* (USizedIter: a one-shot iterator that also defines __len__)
 ViewCls == {"dict_items"}
 
 \* strict subclass edges between concrete classes
@@ -58,6 +59,7 @@ Abcs(c) ==
     [] c = "UMap"  -> {"Mapping", "Collection", "Iterable", "Container", "Sized"}
     [] c = "UIter" -> {"Iterable"}
     [] c = "gen"   -> {"Iterable", "Iterator", "Generator"}
+    [] c = "USizedIter" -> {"Iterable", "Iterator", "Sized"}
     [] c \in {"int", "bool", "float", "complex", "NoneType"} -> {"Hashable"}
     [] OTHER -> {"Hashable"}                                      \* user classes A, B; type objects
 
@@ -135,9 +137,9 @@ VAnd(v, w)    == VV("and", "", <<v, w>>, <<>>)
 VOr(v, w)     == VV("or", "", <<v, w>>, <<>>)
 VNot(v)       == VV("not", "", <<v>>, <<>>)
 
-\* attributes of the user objects:  oa.x = 1   ob.x = "a"   ob.y = oa   (nothing else has x / y)
-HasAttr(x, n) == (x = oa /\ n = "x") \/ (x = ob /\ n \in {"x", "y"})
-AttrOf(x, n)  == IF x = oa THEN i1 ELSE IF n = "x" THEN sa ELSE oa
+\* attributes of the user objects:  oa.x = 1  oa.y = "a"   ob.x = "a"  ob.y = oa   (nothing else has x / y)
+HasAttr(x, n) == (x \in {oa, ob}) /\ n \in {"x", "y"}
+AttrOf(x, n)  == IF x = oa THEN (IF n = "x" THEN i1 ELSE sa) ELSE (IF n = "x" THEN sa ELSE oa)
 
 \* total, side-effect-free predicates usable inside Is[...]
 Pred(p, x) ==
